@@ -66,6 +66,14 @@ class Lib(object):
 
     # -- attribute access -----------------------------------------------------------------------
     def obj_getattr(self, engine, st, o, name, node):
+        if isinstance(o, ExcObj):
+            if name == "args":
+                yield st, tuple(o.args)
+            elif name in o.info:
+                yield st, o.info[name]
+            else:
+                raise Unsupported("attribute %s of exception object" % name)
+            return
         if (o.oid, name) in st.heap or engine.field_sort(o, name):
             yield st, engine.heap_get(st, o, name)
             return
@@ -148,6 +156,13 @@ class Lib(object):
             for r in self.bytesio_call(engine, st, recv, name, args, node):
                 yield r
             return
+        if isinstance(recv, Obj) and isinstance(recv.cls, str):
+            ext = engine.store.externals.get("%s.%s" % (recv.cls, name))
+            if ext is None:
+                raise CheckerError("no library model for %s.%s (line %d)" % (recv.cls, name, node.lineno))
+            for r in self.apply_external(engine, st, ext, [recv] + list(args), kwargs, node):
+                yield r
+            return
         if isinstance(recv, dict) and name == "get":
             key = args[0]
             default = args[1] if len(args) > 1 else None
@@ -169,6 +184,79 @@ class Lib(object):
                 yield st, Raised(type(e), ExcObj(type(e)))
             return
         raise Unsupported("method %s of %r (line %d)" % (name, recv, node.lineno))
+
+    def apply_external(self, engine, st, ext, args, kwargs, node):
+        """a library model given as outcomes: fork one path per outcome"""
+        self.used.add("%s (%s)" % (ext.name, ext.note or "library model"))
+        ln = engine.rel_line(node)
+        names = list(ext.params)
+        if len(args) > len(names):
+            yield st, Raised(TypeError, ExcObj(TypeError))
+            return
+        env = {}
+        for n, a in zip(names, args):
+            env[n] = engine.coerce(st, a, ext.params[n], "%s.%s" % (ext.name, n), node)
+        for n in names[len(args):]:
+            if n in kwargs:
+                env[n] = kwargs[n]
+            elif n in ext.defaults:
+                env[n] = ext.defaults[n]
+            else:
+                yield st, Raised(TypeError, ExcObj(TypeError))
+                return
+        pre = st.fork()
+        pre.env = dict(env)
+        pre.ghost = {}
+        for i, r in enumerate(ext.requires):
+            z, facts = self.spec.evaluate_bool(engine, r, st, pre, env)
+            engine.oblige(st, "pre:%s.%d@L%d[%s]" % (ext.name, i, ln, engine.path_label(st)), z,
+                          props=engine.all_props(engine.cur[1]), kind="pre", extra_hyps=facts,
+                          note="precondition of the library model: " + r)
+            st.pc.extend(facts)
+            st.assume(z)
+        for oc in ext.outcomes:
+            b = st.fork().label("L%d:%s %s" % (ln, ext.name, oc.get("label", "ok")))
+            engine.havoc_modifies(b, env, oc.get("modifies", []), "%s@L%d" % (ext.name, ln))
+            for fld, val in oc.get("sets", {}).items():
+                tgt, fname = fld.rsplit(".", 1)
+                v, facts = self.spec.evaluate(engine, val, b, pre, env)
+                o, _ = self.spec.evaluate(engine, tgt, b, pre, env)
+                b.heap[(o.oid, fname)] = v
+            scope = dict(env)
+            result = None
+            if oc.get("raise"):
+                ecls = self.spec.exc_class(oc["raise"], None)
+                info = {k: engine.fresh_of(srt, "%s.%s@L%d" % (oc["raise"], k, ln)) for k, srt in oc.get("info", {}).items()}
+                exc = ExcObj(ecls, (), info)
+                scope["exc"] = exc
+            else:
+                rs = oc.get("result", ext.result)
+                if rs and rs != "none":
+                    result = engine.fresh_of(rs, "%s.result@L%d" % (ext.name, ln))
+                    if isinstance(result, Obj) and oc.get("result_name"):
+                        result.name = oc["result_name"]
+                scope["result"] = result
+            for a in oc.get("when", []):        # applicability of the outcome (a guard, not a promise)
+                z, facts = self.spec.evaluate_bool(engine, a, b, pre, scope)
+                b.pc.extend(facts)
+                b.assume(z)
+            before = list(b.pc)
+            for a in oc.get("assume", []):
+                z, facts = self.spec.evaluate_bool(engine, a, b, pre, scope)
+                b.pc.extend(facts)
+                b.assume(z)
+            if oc.get("assume"):
+                engine.canary(b, "L%d:%s %s" % (ln, ext.name, oc.get("label", "ok")), before)
+            for ev in oc.get("events", []):
+                b.trace.append(tuple([ev[0]] + [self.spec.evaluate(engine, x, b, pre, scope)[0] for x in ev[1:]]))
+            if not engine.feasible(b):
+                continue
+            if oc.get("raise"):
+                yield b, Raised(ecls, exc, info)
+            else:
+                if oc.get("wrap") == "fd":
+                    result = FdVal(result.z, env[names[0]])
+                yield b, result
 
     def call_symmethod(self, engine, st, m, args, kwargs, node):
         o, name = m.recv, m.name
@@ -333,6 +421,27 @@ class Lib(object):
             return
         allconc = all(not is_sym(a) and not isinstance(a, Obj) and not (isinstance(a, tuple) and any(is_sym(x) for x in a))
                       for a in list(args) + list(kwargs.values()))
+        import sys as _sys, os as _os, zlib as _zlib
+        if f is _sys.exc_info:
+            if not st.exc_stack:
+                yield st, (None, None, None)
+            else:
+                e = st.exc_stack[-1]
+                yield st, (e.cls, e.value if e.value is not None else ExcObj(e.cls), TB)
+            return
+        if f is hasattr and len(args) == 2 and isinstance(args[0], ExcObj) and isinstance(args[1], str):
+            o = args[0]
+            yield st, (args[1] in o.info) or args[1] == "args" or (isinstance(o.cls, type) and hasattr(o.cls, args[1]))
+            return
+        for key, fn in (("os.read", _os.read), ("os.write", _os.write), ("zlib.compress", _zlib.compress),
+                        ("zlib.decompress", _zlib.decompress)):
+            if f is fn and key in engine.store.externals:
+                a = list(args)
+                if key.startswith("os.") and isinstance(a[0], FdVal):
+                    a[0] = a[0].obj
+                for r in self.apply_external(engine, st, engine.store.externals[key], a, kwargs, node):
+                    yield r
+                return
         if f is io.BytesIO:
             self.used.add("BytesIO(data)")
             o = Obj("BytesIO", "bytesio")
@@ -702,6 +811,23 @@ class Lib(object):
 
     def call_star_symbolic(self, engine, st, f, args, starval, kwargs, node):
         raise Unsupported("*args with symbolic tuple")
+
+
+class FdVal(SInt):
+    """a file descriptor number that remembers which model object it belongs to"""
+    __slots__ = ("obj",)
+
+    def __init__(self, z, obj):
+        SInt.__init__(self, z)
+        self.obj = obj
+
+
+class _Traceback(object):
+    def __repr__(self):
+        return "<traceback>"
+
+
+TB = _Traceback()
 
 
 class IntText(SStr):
